@@ -16,7 +16,13 @@ Analyse(o) ==
         rw == IF r.status = "ok" THEN PipeOnValues(o.pipe, o.vars, r.vals, 1) ELSE [st |-> "unspec", vals |-> <<>>]
         names == IF r.status = "ok" THEN UNION {LeftOver(r.vals[k]) : k \in 1..Len(r.vals)} ELSE {}
         left == IF rw.st = "ok" THEN UNION {LeftOver(rw.vals[k]) : k \in 1..Len(rw.vals)} ELSE {}
-    IN  [modst |-> r.status, rwst |-> rw.st, names |-> names, left |-> left]
+        \* the names the expand modifier finds in the values AS WRITTEN: whatever the rest of the chain makes of the value
+        \* (also where that is not defined), none of them may be emitted as text
+        written == IF \E k \in 1..Len(item.chain) : item.chain[k] = N_expand
+                   THEN UNION {LET ph == ExpandFrom(item.vals[k].s, 1).phs IN {ph[j] : j \in 1..Len(ph)}
+                               : k \in {j \in 1..Len(item.vals) : item.vals[j].t = "s"}}
+                   ELSE {}
+    IN  [modst |-> r.status, rwst |-> rw.st, names |-> names \cup written, left |-> left]
 
 RawPH(n) == <<CH_PCT>> \o n \o <<CH_PCT>>
 Lit(p) == SelectSeq(p, LAMBDA c : c >= 0)
